@@ -1,5 +1,5 @@
 //! unit: u03
-//! properties: C03 C12
+//! properties: C03 C12 C10
 //! note: PendingOutboundPayment state machine on the real 8-variant enum: terminal states are never contradicted, nothing is lost in a transition, completion tracking is exact
 //! trusted: axiom_u8_32_key_model: [u8;32] hashes and compares lawfully (vstd obeys_key_model); new_hash_set() is an external_body wrapper for LDK's hash_tables::new_hash_set (returns an empty set); foreign payload types (StaleExpiration, Retry, RouteParametersConfig, RetryableInvoiceRequest, RouteParameters, InvoiceRequest, StaticInvoice, PaymentAttempts, PaymentParameters, PaidBolt12Invoice, Duration) are opaque external_body structs; Path is a stub {v, f} whose final_value_msat()/fee_msat() are external_body pure accessors
 //! trusted: rule R7 splits or-pattern match arms into one arm per alternative
@@ -419,9 +419,9 @@ impl EventQueue { #[verifier::external_body] pub fn push_back(&mut self, e: (Eve
 //@extract lightning/src/ln/outbound_payment.rs :: impl OutboundPayments :: fn fail_htlc
 //@strip events
 //@slice R15
-    if let Some(ev) = full_failure_ev { $a:straight } else { $b:straight } }
+    .map(|act| EventCompletionAction::ReleasePaymentCompleteChannelMonitorUpdate(act)); $tail:any }
 //@with
-    fn queue_events_of_a_failed_htlc(pending_events: &mut EventQueue, path_failure: Event, full_failure_ev: Option<Event>, completion_action: Option<EventCompletionAction>) { if let Some(ev) = full_failure_ev { $a } else { $b } }
+    fn queue_events_of_a_failed_htlc(pending_events: &mut EventQueue, path_failure: Event, full_failure_ev: Option<Event>, completion_action: Option<EventCompletionAction>) { $tail }
 //@ensures P C03,C10 the-completion-action-that-lets-the-monitor-forget-a-failed-htlc-rides-on-the-last-event-queued-for-it-the-terminal-payment-failed-if-there-is-one
     final(pending_events).q@ == (match full_failure_ev {
         Some(ev) => old(pending_events).q@.push((path_failure, None)).push((ev, completion_action)),
